@@ -96,7 +96,7 @@ def run(tier, seed, budget):
             rep.add_inconclusive(repr(res)); continue
         if t['kind'] == 'meta':
             rep.evaluations += res['snapshots_checked']
-            for k in ('transitions', 'random_sequences', 'snapshots_checked'):
+            for k in ('transitions', 'random_sequences', 'snapshots_checked', 'lagging_installs'):
                 rep.count(k, res[k])
             if t.get('main'):
                 exhaustive = res['exhaustive']
